@@ -55,6 +55,9 @@ TRUSTED = [
     "the failure oracle raises a Python exception (Exception subclass, KeyboardInterrupt, SystemExit or another BaseException; the model "
     "carries the kind in Atom.raise and provably never consults it) between statements (or from a before_cursor_execute hook for the version statements); "
     "failures of COMMIT itself and crashes of the process/connection are out of scope",
+    "a batch_alter_table block is abstracted to the statement list ddl(create tmp) | dml(copy, no visible effect) | ddl(drop) | ddl(rename = "
+    "column appears/disappears); the individual effects of the last two are never durable separately on the validated backends "
+    "(harness/online_impl.py:batch_stmts)",
     "observation: sqlite_master table names, rows of the `data` table and alembic_version rows through a fresh connection "
     "(harness/online_impl.py:observe)",
 ]
@@ -64,7 +67,7 @@ RULE = (
     "config in {pysqlite,recipe} x transactional_ddl{default,True} x transaction_per_migration x external-transaction{no,yes}, and EVERY "
     "failure position (k, pos) of the plan (before/between/after each statement, around autocommit blocks, inside and after the version "
     "update), each position with an Exception AND with a BaseException that is not an Exception (KeyboardInterrupt / SystemExit / custom "
-    "BaseException, round robin; all four kinds for the fixed scripts without external transaction), on the in-process path and on the command.upgrade/downgrade "
+    "BaseException, round robin; all four kinds for the fixed scripts on the recipe engine without external transaction), on the in-process path and on the command.upgrade/downgrade "
     "path with the shipped env.py; plus the run without failure. Fixed batteries on every run: (1) the settings given through env.py "
     "(shipped generic env.py whose online context.configure call additionally receives transactional_ddl / transaction_per_migration / "
     "on_version_apply: all 8 setting combinations, incl. the after-the-version-update position on the command path); (2) failures raised "
@@ -76,7 +79,10 @@ RULE = (
     "begin_transaction() (get_current_heads / connection SELECT / context.execute) and run_migrations() without the outer "
     "begin_transaction() (only where that level is a nullcontext): round robin over the configs of every random in-process script, and "
     "on the command path (patched generic env.py) every variant x 4 settings (all 8 in thorough) x every failure position for a script "
-    "with and one without autocommit blocks; (6) a hand-written two-database env.py with different settings per configure() call (all 16 "
+    "with and one without autocommit blocks; (7) op.batch_alter_table() blocks in migration bodies (SQLite move-and-copy, recreate always/auto, add column on upgrade, "
+    "drop column on downgrade; 30% of the random revisions that create a table, plus fixed scripts in all four (transactional_ddl, "
+    "transaction_per_migration) settings x both engines), failure positions also between the statements of the block; "
+    "(6) a hand-written two-database env.py with different settings per configure() call (all 16 "
     "ordered pairs). A case is non-trivial when the run raised; distinct by (config, plan, k, pos, kind)"
 )
 ASSUMPTIONS = [
@@ -119,6 +125,7 @@ def gen_bodies(rng, hist, p_auto=0.2, max_stmts=4):
     bodies = {}
     t = 0
     d = 0
+    ncol = 0
     for r in hist:
         segs = []
         objs = []
@@ -140,6 +147,17 @@ def gen_bodies(rng, hist, p_auto=0.2, max_stmts=4):
             segs.append(cur)
         if segs and rng.random() < p_auto:
             segs[rng.randrange(len(segs))]["auto"] = True
+        # op.batch_alter_table() on a table this revision created: add a column (recreate always / auto)
+        batch = None
+        made = [e // 2 for k, _, e in objs if k == "ddl"]
+        if made and rng.random() < 0.3:
+            batch = (rng.choice(made), ncol, rng.choice(["always", "auto"]))
+            ncol += 1
+            segs.append(oi.batch_seg(batch[0], batch[1], "add", batch[2]))
+            if rng.random() < 0.4:
+                segs.append({"auto": False, "stmts": [["dml", "add", 2 * d + 1]]})
+                objs.append(["dml", "add", 2 * d + 1])
+                d += 1
         # downgrade undoes the upgrade (reverse order), in one or two segments
         down_stmts = [[k, "del", e] for k, _, e in reversed(objs)]
         if len(down_stmts) >= 2 and rng.random() < 0.4:
@@ -147,6 +165,9 @@ def gen_bodies(rng, hist, p_auto=0.2, max_stmts=4):
             dsegs = [{"auto": False, "stmts": down_stmts[:c]}, {"auto": rng.random() < p_auto, "stmts": down_stmts[c:]}]
         else:
             dsegs = [{"auto": rng.random() < p_auto / 2, "stmts": down_stmts}] if down_stmts else []
+        if batch:
+            # the downgrade drops the column first (always a recreate on SQLite)
+            dsegs = [oi.batch_seg(batch[0], batch[1], "drop", batch[2])] + dsegs
         bodies[r["id"]] = {"up": segs, "down": dsegs}
     return bodies
 
@@ -303,7 +324,8 @@ def script_cases(ctx, script, configs, runner="inprocess", cfg_obj=None, scratch
                     continue  # "after the version update" needs an on_version_apply hook: in-process / patched env.py only
                 # every position: an Exception and (round robin, deterministic) one BaseException that is not an
                 # Exception; all four kinds when the script asks for it (fixed scripts, exhaustive domain)
-                kinds = ["exception"] + (nonexc if script.get("all_kinds") and not config.get("external") else [nonexc[(k + pos + cfg_no) % 3]])
+                kinds = ["exception"] + (nonexc if script.get("all_kinds") and not config.get("external") and config["engine"] == "recipe"
+                                         else [nonexc[(k + pos + cfg_no) % 3]])
                 for kind in kinds:
                     res, orc, fin = execute(config, (k, pos, kind))
                     ctx.evaluation()
@@ -453,6 +475,20 @@ DEPS_SCRIPTS += [
     {"hist": _BM_HIST, "shape": "branched", "cmd": "upgrade", "start": ["x"], "target": "heads", "bodies": _BM_BODIES},
     {"hist": _BM_HIST, "shape": "branched", "cmd": "downgrade", "start": ["heads"], "target": "base", "bodies": _BM_BODIES},
 ]
+
+
+# migrations whose bodies contain op.batch_alter_table() blocks (SQLite move-and-copy), followed by another migration
+def _batch_script(recreate):
+    return {"hist": [{"id": "a", "down": []}, {"id": "b", "down": ["a"]}, {"id": "c", "down": ["b"]}], "shape": "linear",
+            "cmd": "upgrade", "start": [], "target": "heads",
+            "bodies": {"a": _b([["ddl", "add", 0], ["dml", "add", 1]], [["dml", "del", 1], ["ddl", "del", 0]]),
+                       "b": {"up": [oi.batch_seg(0, 0, "add", recreate), {"auto": False, "stmts": [["dml", "add", 3]]}],
+                             "down": [{"auto": False, "stmts": [["dml", "del", 3]]}, oi.batch_seg(0, 0, "drop", recreate)]},
+                       "c": _b([["ddl", "add", 2]], [["ddl", "del", 2]])}}
+
+
+BATCH_SCRIPTS = [_batch_script("always"), dict(_batch_script("auto"), cmd="downgrade", start=["heads"], target="base"),
+                 dict(_batch_script("always"), cmd="downgrade", start=["heads"], target="base"), _batch_script("auto")]
 
 
 def fixed_scripts():
@@ -674,6 +710,8 @@ def twodb_battery(ctx, pending, thorough):
                 for c1 in SETTINGS:
                     for c2 in SETTINGS:
                         n += 1
+                        if not thorough and engine_mode == "pysqlite" and c1[0] == c2[0]:
+                            continue  # quick: on pysqlite only the pairs whose transactional_ddl arguments differ
                         if thorough:
                             kinds_for = lambda g, pos: ["exception"] + nonexc
                         else:
@@ -791,7 +829,7 @@ def exhaustive_scripts(max_len=2):
 
 def run(ctx, n_scripts=None, rng_name="main"):
     rng = ctx.rng(rng_name)
-    n = n_scripts if n_scripts is not None else (1000 if ctx.thorough else 8)
+    n = n_scripts if n_scripts is not None else (1000 if ctx.thorough else 6)
     pending = []
     fixed = fixed_scripts()
     jobs = []
@@ -822,6 +860,21 @@ def run(ctx, n_scripts=None, rng_name="main"):
     for s in SABOTAGE_SCRIPTS:
         jobs.append((s, all_configs(rng, True), "inprocess"))
         jobs.append((s, cmd_cfgs + env_cfgs[3:4], "command"))
+    # batch_alter_table blocks in the bodies: all four (transactional_ddl, transaction_per_migration) settings x both engines,
+    # a sample of the external-transaction configs, every position (also between the statements of the block)
+    base_cfgs = all_configs(rng, True)
+    nonext = [c for c in base_cfgs if not c["external"]]
+    both = [c for c in nonext if c["tddl"] and c["perMig"]]
+    for n_b, s in enumerate(BATCH_SCRIPTS):
+        if ctx.thorough:
+            jobs.append((s, base_cfgs, "inprocess"))
+        elif n_b == 0:
+            jobs.append((s, nonext + [c for c in base_cfgs if c["external"]][::4], "inprocess"))
+        elif n_b == 1:
+            jobs.append((s, both + [nonext[0], nonext[6]], "inprocess"))
+        else:
+            jobs.append((s, both, "inprocess"))
+    jobs.append((BATCH_SCRIPTS[0], [env_cfgs[7]] + ([env_cfgs[3]] if ctx.thorough else []), "command"))
     # histories with depends_on
     plain_cfgs = [c for c in all_configs(rng, True) if not c["external"]]
     for s in DEPS_SCRIPTS:
